@@ -70,6 +70,9 @@ def _gen_fresh(r, depth, max_depth, pool):
         return vclasses.Deck([gen_value(r, depth + 1, max_depth) for _ in range(r.randint(0, 2))], r.choice(STR),
                              {kk: gen_value(r, depth + 1, max_depth) for kk in r.sample(KEYS, r.randint(0, 2))})
     if k < 0.93:
+        if r.random() < 0.25:
+            # a custom-serialised object whose own record uses the keys the save format reserves
+            return vclasses.Relic(r.choice(["weapon", "dict", "string_repr", "Card"]), r.randint(0, 9))
         return vclasses.Purse(r.randint(0, 30), [gen_value(r, depth + 1, max_depth) for _ in range(r.randint(0, 2))], r.choice(STR))
     if k < 0.95:
         from bardic.stdlib.economy import Wallet
@@ -164,6 +167,8 @@ def methods_work(v):
         return v.count() == len(v.cards) and methods_work(v.cards) and methods_work(v.notes)
     if isinstance(v, vclasses.Purse):
         return v.worth() == v.coins + len(v.items) and methods_work(v.items)
+    if isinstance(v, vclasses.Relic):
+        return v.describe() == f"{v.kind}:{v.power}"
     t = type(v).__name__
     if t == "Wallet":
         return v.can_afford(0) and v.gold >= 0
